@@ -246,8 +246,8 @@ Proof.
   - destruct (s_buffered st); ch_list Hs.
 Qed.
 
-Lemma ch_mut_list l (xs : list nat) f : (forall x, s_choice (f x) = s_choice x) -> Forall (op_ch l) (concat (map (fun j => c_mutate j f) xs)).
-Proof. intros Hf. induction xs; simpl; constructor; [exact Hf|assumption]. Qed.
+Lemma ch_muts l (xs : list nat) f : (forall x, s_choice (f x) = s_choice x) -> Forall (Forall (op_ch l)) (map (fun j => c_mutate j f) xs).
+Proof. intros Hf. induction xs; simpl; constructor; [constructor; [exact Hf|constructor]|assumption]. Qed.
 
 Lemma chh_jump s id i tg c : CHH s (handle_jump s id i tg c).
 Proof.
@@ -256,15 +256,19 @@ Proof.
   destruct (get_stage s tg) as [tgt|]; [|ch_list I].
   destruct (jump_exhausted _ _); [ch_list I|].
   cbn [h_commits ok]. constructor; [|constructor].
-  unfold txn. rewrite !concat_app. repeat (apply Forall_app; split).
-  - apply ch_mut_list. reflexivity.
-  - apply ch_mut_list. reflexivity.
+  unfold txn. apply Forall_concat''.
+  repeat (apply Forall_app; split).
+  - match goal with |- Forall _ (flat_map _ ?l) => generalize l end. intros l0.
+    induction l0 as [|j l0 IH]; simpl; [constructor|].
+    constructor; [constructor; [cbn [op_ch]; reflexivity|constructor]|]. apply Forall_app. split; [apply ch_muts; reflexivity|exact IH].
+  - apply ch_muts. reflexivity.
   - match goal with |- context [if ?a then [] else _] => destruct a end; [constructor|].
-    match goal with |- context [if ?a then _ else _] => destruct a end; simpl; (constructor; [|constructor]); cbn [op_ch]; reflexivity.
-  - simpl. constructor; [|repeat constructor]. cbn [op_ch]. reflexivity.
-  - repeat constructor.
-  - repeat constructor.
+    match goal with |- context [if ?a then _ else _] => destruct a end.
+    + constructor; [|apply ch_muts; reflexivity]. constructor; [|constructor]. cbn [op_ch]. reflexivity.
+    + constructor; [|constructor]. constructor; [|constructor]. cbn [op_ch]. reflexivity.
   - constructor.
+    + constructor; [|constructor]. cbn [op_ch]. reflexivity.
+    + apply Forall_app. split; [apply ch_muts; reflexivity|]. repeat constructor.
 Qed.
 
 Definition CHC (s : state) (cs : list commit) : Prop := forall n, ch_inv (apply_commits (firstn n cs) s).
